@@ -17,7 +17,17 @@ BG = "magpylib/_src/obj_classes/class_BaseGeo.py"
 FD = "magpylib/_src/fields/"
 FWB = FD + "field_wrap_BH.py"
 OC = "magpylib/_src/obj_classes/"
+IC_ = "magpylib/_src/input_checks.py"
 MUTANTS = [
+    ("C17", "shape-check-ignores-last-axis-with-length", IC_, "        if length is None or len(inp) == length:\n            if inp.shape[-1] == shape_m1:", "        if length is not None and len(inp) == length:\n            return None\n        if length is None:\n            if inp.shape[-1] == shape_m1:", "red"),
+    ("C17", "cuboid-dimension-allows-zero", IC_, "        if np.any(inp <= 0):", "        if np.any(inp < 0):", "equivalent"),
+    ("C17", "cuboid-dimension-allows-negative", IC_, "        if np.any(inp <= 0):", "        if np.any(inp == 0):", "red"),
+    ("C17", "segment-allows-r1-gt-r2", IC_, "    case2 = r1 > r2\n", "    case2 = r1 > r2 + 1\n", "red"),
+    ("C17", "vertices-min-count", IC_, "        if inp.shape[0] < 2:", "        if inp.shape[0] < 1:", "red"),
+    ("C17", "scalar-negative-allowed", IC_, "        if inp < 0:\n            raise MagpylibBadUserInput(ERR_MSG)\n    return inp", "        if inp < -1:\n            raise MagpylibBadUserInput(ERR_MSG)\n    return inp", "red"),
+    ("C17", "setter-assigns-before-validation", OC + "class_magnet_Cuboid.py", "        self._dimension = check_format_input_vector(\n            dim,", "        self._dimension = None\n        self._dimension = check_format_input_vector(\n            dim,", "red"),
+    ("C17", "magnetization-none-regression", OC + "class_BaseExcitations.py", "        if self._magnetization is None:\n            self._polarization = None\n            return\n", "", "red"),
+    ("C17", "pixel-last-axis-any", OC + "class_Sensor.py", "            dims=range(1, 20),\n            shape_m1=3,", '            dims=range(1, 20),\n            shape_m1="any",', "red"),
     ("C07", "triangle-table-regression", OC + "class_misc_Triangle.py", '{"polarization": 2, "vertices": 3}', '{"polarization": 2, "vertices": 2}', "red"),
     ("C07", "cuboid-table-dimension-1", OC + "class_magnet_Cuboid.py", '{"polarization": 2, "dimension": 2}', '{"polarization": 2, "dimension": 1}', "red"),
     ("C07", "source-getH-field-letter", OC + "class_BaseExcitations.py", '            field="H",\n            sumup=False,', '            field="B",\n            sumup=False,', "red"),
